@@ -6,6 +6,7 @@
 
 mod child;
 mod conc;
+mod rereg;
 mod seq;
 mod universe;
 mod xcycle;
@@ -28,6 +29,11 @@ fn run_replay(r: &Replay, tier: Tier) -> Option<Failure> {
     "E4x" => {
       let s: xcycle::XCase = vcore::from_value(&r.scenario);
       xcycle::execute(&s, XWITNESS_HARD_MS).err()
+    }
+    "E5" => {
+      // real threads: statistical unless the case uses the drop gate — repeated
+      let s: rereg::RCase = vcore::from_value(&r.scenario);
+      rereg::execute(&s, tier.pick(20, 200)).err()
     }
     other => {
       eprintln!("unknown engine {other}");
@@ -59,8 +65,8 @@ fn main() {
     Some("child") => child::child_main(child_run),
     Some("replay") => {
       let r = vcore::read_replay(&args[2]);
-      if r.engine == "E4" {
-        println!("note: engine E4 runs real threads; this replay repeats the program and is statistical (a pass does not prove the absence of the race)");
+      if r.engine == "E4" || r.engine == "E5" {
+        println!("note: engines E4/E5 run real threads; this replay repeats the program and is statistical (a pass does not prove the absence of the race)");
       }
       match run_replay(&r, Tier::Thorough) {
         Some(f) => {
@@ -105,7 +111,13 @@ fn main() {
       let out = vcore::drive(&ctx, &check.findings, 3, x_cases, xcycle::strategy, move |s| xcycle::execute(s, hard_ms));
       check.absorb("E4x", out);
       let t_x = ctx.wall();
-      println!("phases: witnesses+regressions {t_w:.1}s, E1 {:.1}s ({e1_cases} cases), E4 {:.1}s ({e4_cases} programs), E4x {:.1}s ({x_cases} cases)", t_e1 - t_w, t_e4 - t_e1, t_x - t_e4);
+      // E5: a continuously registered key re-registered under concurrent resolution
+      let e5_cases = dev("IOCX_E5_CASES", tier.pick(480u64, 24_000u64));
+      let max_rounds = tier.pick(16usize, 40usize);
+      let out = vcore::drive(&ctx, &check.findings, 4, e5_cases, move || rereg::strategy(max_rounds), |s| rereg::execute(s, 1));
+      check.absorb("E5", out);
+      let t_5 = ctx.wall();
+      println!("phases: witnesses+regressions {t_w:.1}s, E1 {:.1}s ({e1_cases} cases), E4 {:.1}s ({e4_cases} programs), E4x {:.1}s ({x_cases} cases), E5 {:.1}s ({e5_cases} programs)", t_e1 - t_w, t_e4 - t_e1, t_x - t_e4, t_5 - t_x);
 
       if std::env::var("VERIF_SURVEY").is_ok() {
         let mut by_sig: std::collections::BTreeMap<String, (u64, String)> = Default::default();
